@@ -3,18 +3,25 @@ from harness import common as C
 from harness import arrays
 
 PROPERTY = "C16"
-LEAN_TARGETS = ["VectorModel.Props.C16"]
-THEOREM_FILES = ["VectorModel/Props/C16.lean"]
+LEAN_TARGETS = ["VectorModel.Props.C16", "VectorModel.Glue.Heap", "VectorModel.Props.C19Heap"]
+THEOREM_FILES = ["VectorModel/Props/C16.lean", "VectorModel/Props/C19Heap.lean"]
 NEEDS_TRANSLATOR = False
 LEVEL = "other"
-EXPLANATION = ("A pure functional model cannot express aliasing, so the Lean theorems (operations are functions of their operands; only `step` has a "
-               "state output; frame lemmas) are nearly trivial. The substance of this check is observational: every operand is snapshotted bit-for-bit "
+EXPLANATION = ("In the pure functional glue model aliasing cannot be expressed, so its theorems (operations are functions of their operands; only `step` has a "
+               "state output; frame lemmas) are nearly trivial. For NumPy vector arrays the HEAP model (Glue/Heap.lean: buffers, views as index maps, copies and pickles as "
+               "fresh buffers) does express it: c19h_frame / c19h_frame_write / c19h_copy_detached state for every history that non-writing operations leave every buffer "
+               "and every other variable unchanged and that a write touches only the addressed rows and field of its target's buffer; that model is tied to the real arrays by "
+               "random multi-variable histories compared after every step. For the rest (object, Awkward, all methods) the substance of this check is observational: every operand is snapshotted bit-for-bit "
                "(object: class, system, coordinates; NumPy: class, dtype, shape, raw bytes, writeable flag; Awkward: form, buffers, fields) before and "
                "after each call of the catalogue on every backend pairing, including calls that raise, reductions and operators.")
 
 
 def correspondence(ctx):
     problems, stats, samples = arrays.c16_run(ctx)
+    from harness import heap
+    hp, hst = heap.run(ctx)
+    problems = problems + [("heap:" + k, d) for k, d in hp]
+    stats.update({"heap_" + k: v for k, v in hst.items() if isinstance(v, int)})
     seen, fails = set(), []
     for k, d in problems:
         if k in seen:
